@@ -617,7 +617,7 @@ class C17(Prop):
             yield {"kind": "conc", "cap": rng.randrange(4), "progs": progs,
                    "choices": [rng.randrange(6) for _ in range(60)]}
         # --- manager, sequential
-        mops1 = [["g", k, v] for k in range(3) for v in range(4)] + [["c"], ["l"], ["x"], ["r", 0], ["r", 1]]
+        mops1 = [["g", k, v] for k in range(3) for v in range(4)] + [["c"], ["l"], ["x"], ["r", 0], ["r", 1], ["s", 0]]
         for cap in (0, 1, 2, 3):
             for a in mops1:
                 for b in mops1:
@@ -633,10 +633,10 @@ class C17(Prop):
             cap = rng.choice([0, 1, 2, 2, 3, 3])
             ops = []
             for _ in range(rng.randint(3, 25)):
-                o = rng.choice(["g", "g", "g", "g", "g", "c", "l", "x", "r", "r"])
+                o = rng.choice(["g", "g", "g", "g", "g", "c", "l", "x", "r", "r", "s"])
                 if o == "g":
                     ops.append([o, rng.randrange(NKEYS), rng.randrange(4)])
-                elif o == "r":
+                elif o in ("r", "s"):
                     ops.append([o, rng.randrange(8)])
                 else:
                     ops.append([o])
@@ -896,6 +896,16 @@ class C17(Prop):
                         del held[i]
                         break
                 p = None
+            elif o == "s":
+                # a caller (e.g. PoolManager.urlopen following a redirect) asks held pool #vid whether two URLs are
+                # its own origin: using a pool's API must not keep the pool alive once it is evicted and dropped
+                for p in held:
+                    if p.vid == op[1]:
+                        p.is_same_host("http://%s/x" % HOSTS[0])
+                        p.is_same_host("http://%s:80/y" % registry[p.vid]["host"])
+                        p.is_same_host("/relative")
+                p = None
+                continue                    # not an operation of the cache: no protocol line
             elif o == "x":
                 lines.append("gc")
                 gc.collect()
